@@ -100,7 +100,14 @@ impl Builder {
 
     /// Choose how the beneficiary exists before the block.
     pub fn setup_coinbase(&mut self, rng: &mut Rng) -> &'static str {
-        match rng.below(5) {
+        match rng.below(6) {
+            5 => {
+                // exists but is empty (e.g. a genesis allocation with balance 0): a zero reward
+                // is still a touch, and since EIP-161 that touch deletes the account
+                self.db.insert_eoa(coinbase(), U256::ZERO, 0);
+                self.nonces.insert(coinbase(), 0);
+                "empty-existing"
+            }
             0 => "absent",
             1 => {
                 self.db.insert_eoa(coinbase(), U256::from(12345u64), 0);
@@ -791,10 +798,18 @@ pub fn gen_delegated(rng: &mut Rng, spec: SpecId, n_txs: usize) -> Block {
                 b.desc[i] = format!("own-tx of delegated {k}: transfer {v}");
             }
             6 => {
-                // own transaction that runs the account's delegated code
+                // own transaction that runs the account's delegated code (fee, debit and the
+                // unused-gas reimbursement all hit the same account), often followed by another
+                // own transaction so that there is something to reserve for
                 let k = rng.below(2);
                 let i = b.call(rng, da(k), da(k), &[0], "own-tx-runs-delegated-code");
                 amounts.push((i, k));
+                if rng.chance(2, 3) {
+                    let to = eoa(rng.below(n_eoas));
+                    let v = rng.below(5_000) as u128;
+                    let j = b.transfer(rng, da(k), to, v);
+                    b.desc[j] = format!("own-tx of delegated {k}: transfer {v}");
+                }
             }
             7 => {
                 let i = b.call(rng, from, nested, &[0], "nested-credit-then-debit");
@@ -863,11 +878,14 @@ pub fn gen_delegated(rng: &mut Rng, spec: SpecId, n_txs: usize) -> Block {
             if *kk != k {
                 continue;
             }
-            let v: u128 = match rng.below(7) {
+            // for the account's own transactions the interesting amounts sit right at the
+            // boundary (what the account keeps is the slack plus whatever gas it gets back)
+            let own_tx = b.txs[*i].caller == da(k);
+            let v: u128 = match rng.below(if own_tx { 10 } else { 7 }) {
                 0 => 0,
                 1 => 1,
                 2 => slack,
-                3 => slack + 1,
+                3 | 7 | 8 | 9 => slack + 1,
                 4 => slack.saturating_sub(1),
                 5 => balance[k] / 2,
                 _ => balance[k],
